@@ -98,14 +98,17 @@ def grid(ctx) -> None:
     # 5. PulserData.__init__: same flag to the sampler, same config to the grid
     g, gp = _run(ctx, PA + "PulserData.__init__", cls=PA + "PulserData")
     okm = okn = okt = okg = False
+    seen_fs = False
     for p in gp:
         for e in p.events:
             if e.kind == "call" and e.name.endswith("HamiltonianData.from_sequence"):
                 kw = dict(e.kw)
                 okm = show(kw.get("with_modulation", ("const", None))).endswith("config.with_modulation")
                 okt = show(kw.get("n_trajectories", ("const", None))).endswith("config.n_trajectories")
-                okn = strip_typed(kw.get("noise_model", ("const", None))) != ("const", None) and \
-                    "noise_model" in show(kw.get("noise_model"))
+                nm_ = show(kw.get("noise_model", ("const", None)))
+                okn_here = "noise_model" in nm_ or nm_.startswith("NoiseModel(")
+                okn = okn_here if not seen_fs else (okn and okn_here)
+                seen_fs = True
             if e.kind == "call" and e.name == PA + "_get_target_times":
                 okg = all(show(e.args.get(k, ("const", None))) == k for k in ("sequence", "config", "dt"))
     ctx.ob("GRID", "sampler flags", g.loc(), okm and okt and okn,
